@@ -17,6 +17,8 @@ META = {
                 tech='AST term-table matching, must-pass-through (normaliser) dataflow, closed-producer rule at unchecked constructor sites'),
     'C02': dict(text=GEN % 'operand order of composition lambdas, division = product with inverse, structured-inverse tables, power/prod folds, information dependence of the logarithm used by twist composition, no hidden state in the classes involved (R15, R16, R17, R7, R9)', sec='4 C02',
                 tech='AST term/word normalisation against mathematical tables, abstract interpretation of operator dispatch'),
+    'C03': dict(text='static analysis of the structural core of the property only: abstract dispatch of every documented argument form of the Exp constructors to the whole-argument or per-element route; the general branch of the SO(3) logarithm composed with Rodrigues\' formula is the identity term by term; twist=True/False result pairs are vee/hat of each other; series terms of Ginv; closed forms of rodrigues/trexp/trexp2; half-turn axis depends on off-diagonals; routing with options. NOT decided: every accuracy statement (thresholds, behaviour near 0 and pi, 1e-7 agreement, finiteness, the scipy-based 2D logarithm).', sec='5',
+                tech='abstract interpretation of argument-form guards, writer/reader composition over polynomial normal forms, term tables, information-dependence rule'),
     'C04': dict(text=GEN % 'sibling constructors reduce to the same primitive, conversion routing, double-cover equality form, r2q composed with the q2r table, dual-quaternion pair integrity (R13, R16, R17, R19)', sec='4 C04',
                 tech='sibling cross-check over resolved callees, term tables, symbolic writer/reader composition over polynomial normal forms'),
     'C05': dict(text=GEN % 'documented axis orders as rotation words, order-name tables agree, unit/flip/order threading, singular-branch agreement, term-by-term composition of tr2rpy/tr2eul with the rpy2r/eul2r words, double-cover parity of the quaternion accessors (R12, R10, R8, R16, R19)', sec='4 C05',
@@ -52,9 +54,7 @@ META = {
     'C20': dict(text=GEN % 'typed guards dominate the arithmetic, cross/adjoint/inertia tables, constructor form tests on the raw argument, no hidden state in the pose/twist classes whose adjoint is applied (R16, R7, R9)', sec='4 C20',
                 tech='guard dominance, literal 6x6 table comparison, operator table'),
 }
-NA = {
-    'C03': 'numerical formulas and branch thresholds only (closed-form exp/log over twelve orders of magnitude of angle); no structural necessary condition that a realistic numeric defect would break -- see DESIGN.md section 5',
-}
+NA = {}
 
 props_all = [json.loads(l)['id'] for l in open(os.path.join(V, 'properties.jsonl'))]
 checks = []
